@@ -8,7 +8,7 @@ The lines of a frame the multiplexer accepts are in strictly ascending order of 
 -/
 namespace Zvbi.Mux
 open Zvbi.Mux.EnParse Zvbi.Hamm
-open Zvbi.Demux (AscFrom lastLineOf firstLine SepFrom FrameLinesOK FrameOut ofLine)
+open Zvbi.Demux (AscFrom lastLineOf firstLine SepFrom FrameLinesOK FrameOut ofLine SrcCfg frameCap_ge)
 
 theorem canon_line (s : Sliced) (l : Line) (h : canon s = some l) : l.line = s.line := by
   unfold canon at h
@@ -180,9 +180,10 @@ theorem separable_defined : ∀ (ss : List Sent), Separable ss → ∀ s ∈ ss,
       · exact hd
       · exact ih hsep' s hs
 
-theorem sepFrom_of_separable : ∀ (ss : List Sent) (s : Sent),
+theorem sepFrom_of_separable {cfg : SrcCfg} : ∀ (ss : List Sent) (s : Sent),
     (∀ t ∈ s :: ss, (∀ l ∈ t.lines, l.line ≠ 0) → AscFrom 0 t.lines ∧ t.lines.length ≤ 39) →
-    Separable (s :: ss) → FrameLinesOK s.lines ∧ SepFrom (lastLineOf 0 s.lines) (ss.map (·.lines)) := by
+    Separable (s :: ss) → FrameLinesOK cfg s.lines ∧ SepFrom cfg (lastLineOf 0 s.lines) (ss.map (·.lines)) := by
+  have hcap := frameCap_ge cfg
   intro ss
   induction ss with
   | nil =>
